@@ -11,6 +11,7 @@ def main(tier):
     extracted, syms = models.cooling_formulas(P, rep)
     rep.floor("EXPR.cooling.extracted", len(extracted), 3, "closed forms extracted (half space, plate, constant-age plate)")
     models.envelope(P, rep, extracted, syms)
+    rep.attempt(models.parameter_single_source, P, rep)      # one value per physical parameter inside a model's formulas
     dep.surface_pairing(P, rep)  # the model's own top and bottom are the local depths: features hand over, and models use, the local bounds
     models.formulas(P, rep)      # linear models: T_top at the clipped top, T_bottom at the clipped bottom follow from the verified form
     rep.assumptions.append("bounds and monotonicity of the 100-term plate-model series, the mass-conserving slab construction and the slab plate "
